@@ -187,6 +187,17 @@ func (h *v16) onAnswer(a vAnswer) vReply {
 		return vReply{200, []byte(`{"Status":"success"}`)}
 	case "answer-refused":
 		switch s.variant {
+		case "error-after-client-connected":
+			// the broker has handed the answer to the client, which connects at once; only
+			// then does the proxy's POST fail (the reply is lost or late): the session is
+			// already being served when the proxy learns that sending the answer "failed"
+			s.peer.applyAnswer(a.Answer)
+			if s.peer.waitOpen(10*time.Second) && s.peer.send("hello") == nil {
+				if h.relay.waitConn(s.key, 5*time.Second) != nil {
+					h.res.Obs("answers_failed_after_the_client_was_already_served", 1)
+				}
+			}
+			return vReply{500, []byte("no")}
 		case "http-500":
 			return vReply{500, []byte("no")}
 		case "malformed":
@@ -1259,7 +1270,7 @@ var v16Variants = map[string][]string{
 	"bad-relay": {"out-of-pattern", "userinfo", "trailing-dot", "unparsable"},
 	// only for proxies that do not allow non-TLS relays: allowed host, scheme not wss
 	"bad-relay-scheme": {"scheme-ws", "scheme-ws-userinfo", "scheme-ws-userinfo-port", "scheme-ws-no-port", "scheme-http", "scheme-https", "scheme-empty", "scheme-wss-lookalike"},
-	"answer-refused":   {"client-gone", "http-500", "malformed", "empty-status", "client-gone-but-client-connects", "client-gone-but-client-connects"},
+	"answer-refused":   {"client-gone", "http-500", "malformed", "empty-status", "client-gone-but-client-connects", "client-gone-but-client-connects", "error-after-client-connected", "error-after-client-connected"},
 	"relay-closes":     {"close-now", "close-after-first"},
 }
 
@@ -1350,6 +1361,10 @@ func v16Plan(shard, nshards int, r *vlib.Rand) (int, bool, []*v16Step) {
 			st.DefURL = r.Chance(1, 5)
 		}
 		steps = append(steps, st)
+	}
+	if !vlib.Thorough() && (shard%12 == 0 || shard%12 == 6) && len(steps) >= 3 { // capacities 1 and 4
+		i := len(steps) - 2
+		steps[i].Kind, steps[i].Variant = "answer-refused", "error-after-client-connected"
 	}
 	if !vlib.Thorough() && (shard%12 == 2 || shard%12 == 5) { // capacities 3 and 1
 		i := len(steps) - 1
